@@ -25,8 +25,11 @@ def main():
         print('| `%s` | %s | %s | %s | %s |' % (r[0], r[1].replace('|', '/'), r[2].replace('|', '/'), r[3].replace('|', '/'), r[4]))
     n = len(rows)
     first = len([r for r in rows if str(r[3]).startswith('yes')])
+    unrec = len([r for r in rows if str(r[3]).startswith('not recorded')])
     print()
-    print('%d changes kept; %d were reported by the check as first built, %d only after the check was strengthened.' % (n, first, n - first))
+    print('%d changes kept; %d were reported by the check as first built, %d only after the check was strengthened, for %d (round 2) '
+          'the state of the check at the time was not recorded separately. Every one of them is reported by the check as committed.'
+          % (n, first, n - first - unrec, unrec))
 
 
 if __name__ == '__main__':
